@@ -153,6 +153,82 @@ def check_claim_requires_available_entry(ctx, model):
            "payout aggregation dominated by `find over epoch.available`.ok_or(..)? : %s" % ok, v.where(aggs[0][0]))
 
 
+def check_bond_requires_claimed(ctx, model):
+    """D7: "never paid for an epoch that started before it bonded" rests on the bonding contract refusing to change a
+    bond while rewards are pending: in whale_lair `bond` and `unbond` the success of validate_claimed(..)? dominates every
+    write (unconditionally -- a first bond of a denom by an address that claimed before is exactly the case that matters),
+    and validate_claimed asks the configured distributor for the SENDER's claimable epochs and rejects unless the list is
+    empty."""
+    from ..guards import HelperGuard, site_guarded
+    from ..mir import storage_call
+    spec = HelperGuard("validate_claimed(..)?", r"^whale_lair::helpers::validate_claimed$")
+    for p in ("whale_lair::commands::bond", "whale_lair::commands::unbond"):
+        v = ctx.view(p, "C09-D7")
+        if v is None:
+            continue
+        writes = [b for b, t in v.iter_calls() if storage_call(t) and storage_call(t)[1] in ("save", "update", "remove")]
+        writes += [b for b, t in v.calls_to(r"^whale_lair::state::update_(local|global)_weight$")]
+        bad = [b for b in writes if not site_guarded(model, (), p, b, spec)[0]]
+        ctx.ob("C09-D7", "%s|pending-rewards-claimed-first" % p, bool(writes) and not bad,
+               "%d writes; not dominated by validate_claimed(..)?: %s" % (len(writes), ["bb%d" % b for b in bad]), v.where(bad[0]) if bad else v.where())
+        for b, t in v.calls_to(r"^whale_lair::helpers::validate_claimed$"):
+            a1 = v.origins_of_operand(t["args"][1], at=v.at_term(b))
+            ctx.ob("C09-D7", "%s|checked-for-the-sender" % p, bool(a1) and all(o.kind == "param" and "MessageInfo" in v.local_ty(o.a) and not o.proj for o in a1),
+                   "validate_claimed is applied to %s (must be the entry point's MessageInfo)" % sorted(map(repr, a1)), v.where(b))
+    h = ctx.view("whale_lair::helpers::validate_claimed", "C09-D7")
+    if h is not None:
+        oks = set(ok_value_blocks(h))
+        ok = False
+        det = "no emptiness test on the claimable epochs"
+        for b, c, _ in switch_conds(h):
+            if c.kind == "call" and c.callee.endswith("Vec::is_empty"):
+                a0 = h.origins_of_operand(c.term["args"][0], at=h.at_term(c.block))
+                if a0 and all(o.kind == "call" and o.a.endswith("query_wasm_smart") and tuple(o.proj) == ("epochs",) for o in a0):
+                    te, fe = cmp_true_false_edges(h, b, c)
+                    nonempty = te if c.neg else fe
+                    reach = set()
+                    for _, tgt in nonempty:
+                        reach |= h.reachable(tgt)
+                    ok = not (reach & oks)
+                    det = "non-empty claimable list %s reach Ok" % ("cannot" if ok else "CAN")
+        q_ok = False
+        for b, t in h.calls_to(r"query_wasm_smart$"):
+            to = h.origins_of_operand(t["args"][1], at=h.at_term(b))
+            msg = h.origins_of_operand(t["args"][2], at=h.at_term(b), taint=True)
+            q_ok = bool(to) and all(o.kind == "load" and tuple(o.proj) == ("fee_distributor_addr",) for o in to) and \
+                any(o.kind == "agg" and o.a.endswith("QueryMsg::Claimable") for o in msg) and \
+                any(o.kind == "param" and tuple(o.proj) == ("sender",) for o in msg)
+        ctx.ob("C09-D7", "whale_lair::helpers::validate_claimed|rejects-pending-rewards", ok and q_ok,
+               "%s; asks CONFIG.fee_distributor_addr for Claimable{sender}: %s" % (det, q_ok), h.where())
+
+
+def check_migration_refund(ctx, model):
+    """D8: the v0.9.1 migration force-expires faulty epochs: what it sends out is what it removes from the ledgers -- the
+    refunded amount is aggregated from the very field (`available`) that is then emptied, never from `total` (already
+    claimed tokens are not there any more)."""
+    p = "fee_distributor::migrations::migrate_to_v091"
+    v = ctx.view(p, "C09-D8")
+    if v is None:
+        return
+    agg_fields = set()
+    for b, t in v.calls_to(r"asset::aggregate_assets$"):
+        for o in v.origins_of_operand(t["args"][1], at=v.at_term(b)):
+            agg_fields.add(o.proj[-1] if o.proj else "<%s>" % o.kind)
+    emptied = set()
+    for b, i, s_ in v.iter_stmts():
+        F = v._named_fields(s_["lhs"]["p"])
+        if F and F[-1] in ("available", "total", "claimed") and s_["rv"]["r"] in ("use", "agg"):
+            os_ = v.origins_of_place(s_["lhs"], at=(b, i + 1)) if False else None
+            emptied.add(F[-1])
+    for b, t in v.iter_calls():
+        # `epoch.available = vec![]` lowers to a call writing the field
+        F = v._named_fields(t["dest"]["p"])
+        if F and F[-1] in ("available", "total", "claimed"):
+            emptied.add(F[-1])
+    ctx.ob("C09-D8", "%s|refund==ledger-decrease" % p, agg_fields == {"available"} and emptied == {"available"},
+           "refund aggregated from epoch.%s; fields emptied: %s (both must be exactly `available`)" % (sorted(agg_fields), sorted(emptied)), v.where())
+
+
 def check_query_claimable(ctx, model):
     v = ctx.view(QC, "C09-D2")
     if v is None:
@@ -341,6 +417,8 @@ def run(ctx):
     model = ctx.model()
     check_claim(ctx, model)
     check_query_claimable(ctx, model)
+    check_migration_refund(ctx, model)
+    check_bond_requires_claimed(ctx, model)
     check_claim_requires_available_entry(ctx, model)
     check_reply(ctx, model)
     check_window_selection(ctx, model)
